@@ -145,24 +145,39 @@ def case_year(mon, y):
                       {"date": [y + 1, 1, 1], "jde": jn, "previous_jde": prev})
         except Exception as ex:
             mon.dev("step==1.0", {"date": [y + 1, 1, 1], "raised": repr(ex)})
-    # refusal probes
+    # refusal probes: the day that does not exist, with the month written in
+    # every documented way (number, float, short and long name, inside a
+    # tuple or a list)
     for m in range(1, 13):
         ln = dc.month_len(y, m)
         for bad in (0, 0.5, ln + 1, float(ln + 1), 32):
-            mon.evals += 1
-            mon.cls("refusal-probe", (y, m, "bad", bad),
-                    [y, m, bad, "ValueError expected"])
-            try:
-                r = Epoch(y, m, bad)
-            except ValueError:
-                mon.ok("refuse.bad-day")
-                continue
-            except Exception as ex:
-                mon.dev("refuse.bad-day", {"date": [y, m, bad],
-                                           "raised": repr(ex)})
-                continue
-            mon.dev("refuse.bad-day", {"date": [y, m, bad],
-                                       "accepted_as_jde": r.jde()})
+            forms = (("int", (y, m, bad)),
+                     ("float-month", (y, float(m), bad)),
+                     ("short-name", (y, SHORT[m - 1], bad)),
+                     ("long-name", (y, LONG[m - 1], bad)),
+                     ("tuple", ((y, m, bad),)),
+                     ("list-with-name", ([y, SHORT[m - 1], bad],)),
+                     ("with-time", (y, LONG[m - 1].upper(), int(bad),
+                                    0, 0, 0.0)))
+            for fname, a in forms:
+                if fname == "with-time" and bad == 0.5:
+                    continue
+                mon.evals += 1
+                mon.cls("refusal-probe", (y, m, "bad", bad),
+                        [y, m, bad, "ValueError expected"])
+                mon.cls("refusal-probe:" + fname, (y, m, bad))
+                try:
+                    r = Epoch(*a)
+                except ValueError:
+                    mon.ok("refuse.bad-day")
+                    continue
+                except Exception as ex:
+                    mon.dev("refuse.bad-day", {"form": fname,
+                                               "args": repr(a),
+                                               "raised": repr(ex)})
+                    continue
+                mon.dev("refuse.bad-day", {"form": fname, "args": repr(a),
+                                           "accepted_as_jde": r.jde()})
 
 
 def case_anchors(mon):
